@@ -94,6 +94,33 @@ func TestC16(t *testing.T) {
 				failRapid(rt, r, caseOf("C16", "dst", b, err), err)
 			}
 		})
+		// 1b. every single-byte edit of string tokens (malformed escapes, raw control bytes, missing
+		// quotes) under every scratch configuration: success, value, offset and error must not
+		// depend on the scratch either
+		e.rapidStage("scratch-sweep", "sweep", e.cfg.N(150, 8000), func(rt *rapid.T) {
+			b := gen.Str(rt, nil, 5)
+			if len(b) > 36 {
+				b = gen.Str(rt, nil, 2)
+			}
+			var ferr error
+			var bad []byte
+			var badCfg [2]int
+			gen.Sweep(b, func(x []byte) bool {
+				r.Begin("scratch", x)
+				for _, sc := range [][2]int{{0, 0}, {5, 64}, {0, 3}, {40, 41}, {0, 256}} {
+					ok, err := c16Scratch(x, sc[0], sc[1])
+					r.Eval(core.HashInts(core.Hash(x), -2, int64(sc[0]), int64(sc[1])), !ok)
+					if err != nil {
+						ferr, bad, badCfg = err, keepSpare(x), sc
+						return false
+					}
+				}
+				return true
+			})
+			if ferr != nil {
+				failRapid(rt, r, &core.Case{Prop: "C16", Kind: "scratch", In: append([]byte(nil), bad...), Ints: []int64{int64(badCfg[0]), int64(badCfg[1])}}, ferr)
+			}
+		})
 		// 2. every entry point leaves its input alone; returned trees/strings own their memory
 		inputEval := func(kind string, in []byte) error {
 			tree, err := c16Input(in)
